@@ -228,6 +228,11 @@ func rewriteFile(path, pkg string) error {
 			if imp.Name == nil {
 				imp.Name = ast.NewIdent("sync")
 			}
+		case "sync/atomic":
+			imp.Path.Value = strconv.Quote(simBase + "simatomic")
+			if imp.Name == nil {
+				imp.Name = ast.NewIdent("atomic")
+			}
 		case "math/rand", "crypto/rand":
 			imp.Path.Value = strconv.Quote(simBase + "simrand")
 			if imp.Name == nil {
